@@ -107,7 +107,7 @@ class Machine:
        stack: tuple of frames (fn, bb, si, locals, dest_local, ret_bb)
        facts: tuple of (relpos, class) for the last read position; hyps: frozenset of (state, placements)"""
 
-    def __init__(self, bodies, spec, claims, entry, entry_args, inline, track_all=False):
+    def __init__(self, bodies, spec, claims, entry, entry_args, inline, track_all=False, param_start=False):
         """claims: list of (marker_lo, marker_hi, path) — the value found at `path` in the return value is either absent
         or a Range whose bounds are claimed to be the positions of the two markers; a marker name None is not claimed."""
         self.bodies = bodies
@@ -119,6 +119,9 @@ class Machine:
         self.findings = []
         self.stats = {'configs': 0, 'transitions': 0, 'returns': 0, 'steps': 0}
         self.track_all = track_all
+        # parametric start: the scanner is started at an arbitrary offset of a longer buffer whose earlier content is unknown;
+        # indices counted from the beginning of the buffer are then meaningless
+        self.param_start = param_start
 
     # ------------------------------------------------------------------ exploration
     def run(self):
@@ -246,6 +249,8 @@ class Machine:
         if v[0] == 'idx':
             return v[1]
         if v[0] == 'int':
+            if self.param_start:
+                raise Unsupported(f'absolute index {v[1]} used by a scanner that is started at an arbitrary offset: it reads outside the scanned component')
             return v[1] + cfg[1]
         if v[0] == 'end':
             if cfg[3] is True:
@@ -616,6 +621,8 @@ class Machine:
             if args[0][0] == 'lit':
                 return [(INT(len(args[0][1])), ae)]
         if name.endswith('is_empty') and args and args[0] == ('slice',):
+            if self.param_start:
+                raise Unsupported('emptiness of the whole buffer tested by a scanner started at an arbitrary offset')
             if cfg[1] < 0:
                 return [(INT(0), ae)]
             r = self.cmp_pos(cfg, 'Lt', ('idx', 0), ('end', 0), lambda l, r: l < r)
